@@ -82,6 +82,9 @@ def visit_map_paths(types, L):
         def err(ex_, st_, tr):
             _ev(st_, "valueerr")
             return ex_.mk_variant("Result", 1, "Err", Opaque(z3.Const(f"error:value{j}", OBJ)))
+        if depth == 0:
+            # for a non-optional member `null` is just another value of its type as far as the visitor is concerned: two outcomes
+            return Fork([(out == 0, val), (out == 2, err)])
         return Fork([(out == 0, val), (out == 1, null), (out == 2, err)])
 
     def m_err(tag):
@@ -97,7 +100,7 @@ def visit_map_paths(types, L):
         (r"as params::_::_serde::de::Error>::missing_field$", m_err("missing_field")),
         (r"^Extensions::new$", lambda ex, st, c, a, d, s: Opaque(z3.Const("extensions", OBJ))),
     ] + list(SQ.TRY_MODELS)
-    ctx = P.make_ctx(types, extra_models=models, max_visits=L + 3, max_paths=60000)
+    ctx = P.make_ctx(types, extra_models=models, max_visits=L + 3, max_paths=500000)
     ctx.inline = [M.crate_inliner(types)]
     ex = Executor(ctx)
     return b, ex, ex.run(b)
